@@ -43,6 +43,7 @@ def run_job(kind, key):
         return dict(job=key, records=recs, paths=npaths, lib=sorted(I.used_lib))
     if kind == 'next-lemma':
         c = rd.NextLemma()
+        engine.Z3_MS = 1500          # character-level string lemma: z3's sequence solver rarely decides it, cvc5 --strings-exp does (both are tried)
         recs, npaths = verify_contract(I, c, PROP)
         for r in recs:
             r['name'] = r['name'].replace('_AutoLineReader.next/', '_AutoLineReader.next[next-lemma]/')
